@@ -30,6 +30,7 @@ const (
 	verifTickCliTimeout
 	verifTickCliCloseDone
 	verifTickCliTimeoutResolved
+	verifTickSrvReqTimer
 )
 
 func verifTick(which int)                                                  {}
